@@ -44,6 +44,7 @@ def log(*a):
 class Ctx:
     def __init__(self, pid, tier, level="model_checking"):
         self.pid, self.tier, self.level = pid, tier, level
+        self.trace_cmd, self.context_cache = {}, {}
         self.seed = int(os.environ.get("VERIF_SEED", "1") or "1") % 1000000007     # TLC integers are 32 bits wide
         self.t0 = time.time()
         base = os.environ.get("VERIF_SCRATCH") or tempfile.gettempdir()
@@ -251,6 +252,7 @@ class Ctx:
             raise Broken("recorder %s produced no events" % name)
         self.stages.append({"stage": name, "kind": "record", "family": family, "events": n, "wall_s": round(time.time() - t, 1)})
         log("%s: recorded %d events in %.1fs" % (name, n, time.time() - t))
+        self.trace_cmd[outp] = {"cmd": cmd, "env": env_extra or {}, "race": race}
         return outp
 
     def validate(self, name, module_rel, cfg_rel, tracef, family, shards=1, timeout=1800, heap="4g", constants=None, cut=None):
@@ -306,7 +308,8 @@ class Ctx:
             self.failures.append({"family": family, "kind": "event", "payload": lines[i], "site": ev.get("site", "event"),
                                   "input": ev.get("input", ""), "expected": "(specification operator, see " + module_rel + ")",
                                   "observed": json.dumps(ev.get("res", ev))[:400], "stage": name,
-                                  "module": module_rel, "cfg": cfg_rel, "constants": constants})
+                                  "module": module_rel, "cfg": cfg_rel, "constants": constants,
+                                  "reccmd": self.trace_cmd.get(tracef), "shards": shards, "cut": cut})
         for l in lines[:2]:
             if len(self.samples) < 12:
                 self.samples.append({"stage": name, "event": json.loads(l)})
@@ -400,6 +403,48 @@ class Ctx:
                 self.failures, self.validated, self.samples, self.stages = saved
             return len(bad) > 0
 
+    def confirm_in_context(self, f):
+        """A failure that does not reproduce on its own may depend on what the process did before it (state the real code
+        keeps between calls).  It counts when the identical, deterministic run - the same cases in the same order, one
+        worker - fails again at the same case."""
+        if f["kind"] == "state" and f.get("cmd") and f["site"] not in ("hang", "crash"):
+            fv = self.build(f.get("race", False))
+            key = json.dumps(f["cmd"][1:4])
+            if key not in self.context_cache:
+                cmd = [fv] + f["cmd"][1:4] + ["-workers", "1"]
+                seen = set()
+                for _ in range(2):            # twice: the failure must recur in both ordered runs
+                    try:
+                        p = subprocess.run(cmd, capture_output=True, text=True, timeout=3600)
+                        rep = json.loads(p.stdout.strip().splitlines()[-1])
+                    except Exception:
+                        rep = {"mismatches": []}
+                    cur = set(m["state"] for m in rep["mismatches"])
+                    seen = cur if _ == 0 else (seen & cur)
+                self.context_cache[key] = seen
+            return f["payload"] in self.context_cache[key]
+        if f["kind"] == "event" and f.get("reccmd"):
+            rc = f["reccmd"]
+            fv = self.build(rc.get("race", False))
+            key = json.dumps(rc["cmd"][1:])
+            if key not in self.context_cache:
+                outp = os.path.join(self.scratch, "context-%d.ndjson" % len(self.context_cache))
+                cmd = [fv] + [outp if (i > 0 and rc["cmd"][i - 1] == "-out") else a for i, a in enumerate(rc["cmd"])][1:]
+                p = subprocess.run(cmd, capture_output=True, text=True, timeout=3600, env=dict(os.environ, **rc["env"]))
+                bad_inputs = set()
+                if p.returncode == 0:
+                    saved = (self.failures, self.validated, self.samples, self.stages, self.nontrivial)
+                    self.failures, self.samples, self.stages = [], list(self.samples), list(self.stages)
+                    try:
+                        self.validate("context", f["module"], f["cfg"], outp, f["family"], shards=f.get("shards") or 1,
+                                      constants=f.get("constants"), cut=f.get("cut"))
+                        bad_inputs = set((x["site"], x["input"]) for x in self.failures)
+                    finally:
+                        self.failures, self.validated, self.samples, self.stages, self.nontrivial = saved
+                self.context_cache[key] = bad_inputs
+            return (f["site"], f["input"]) in self.context_cache[key]
+        return False
+
     def finish(self, rule, assumptions=(), extra_cov=None):
         known = self.known()
         by_site = {}
@@ -420,6 +465,12 @@ class Ctx:
                 if self.confirm(f):
                     conf = f
                     break
+            if conf is None:
+                for f in cands[:6]:
+                    if self.confirm_in_context(f):
+                        conf = dict(f, in_context=True)
+                        log("failure at site %s reproduces only after the cases before it (same run, same order): history-dependent" % site)
+                        break
             if conf is None:
                 unconfirmed += len(fs)
                 log("failure at site %s did not reproduce in isolation (%d cases)" % (site, len(fs)))
@@ -446,6 +497,7 @@ class Ctx:
                        "site": site, "input": conf["input"], "expected": conf["expected"], "observed": conf["observed"],
                        "stage": conf["stage"], "module": conf.get("module"), "cfg": conf.get("cfg"),
                        "constants": conf.get("constants"), "race": conf.get("race", False),
+                       "history_dependent": bool(conf.get("in_context")),
                        "cases_at_site": len(fs)}, open(rp, "w"), indent=1)
             print("VIOLATION property=%s replay=%s" % (self.pid, rp))
             print("  site=%s input=%s expected=%s observed=%s" % (site, json.dumps(conf["input"])[:300],
